@@ -49,6 +49,8 @@ func leavesJSON() []*qast.Node {
 		eq(qast.I("9223372036854775807")),
 		eq(qast.I("-9223372036854775808")),
 		eq(qast.W("é中")),
+		// characters whose Go and JSON escapes differ, or that JSON escapes although they are legal
+		eq(qast.Q("x\x7fy")), eq(qast.Q("\x01")), eq(qast.Q("a\tb\nc")), eq(qast.Q("tag\U000E0001end")), eq(qast.Q("l\u2028s")), eq(qast.Q("<&>")),
 		eq(qast.Q("é 😀")),
 		eq(qast.W(`\"min\"\:\"max\"\:`)),
 		L(qast.Leaf{Kind: qast.LEq, Field: `m\"in`, Val: qast.W("v")}),
@@ -96,6 +98,7 @@ func init() {
 			for _, u := range enum.SeqUnits("tok", "full", len(enum.SigmaFull), n, 2) {
 				us = append(us, core.Unit{Name: u})
 			}
+			us = append(us, core.Unit{Name: "reuse", Weight: 2})
 			// bare words built from escape sequences and the characters they protect, in every value slot
 			for _, u := range enum.SeqUnits("bytes", "esc", len(enum.ByteAlphabets["esc"]), n, 1) {
 				us = append(us, core.Unit{Name: "word|" + u})
@@ -109,6 +112,20 @@ func init() {
 				}
 			}
 			switch {
+			case unit == "reuse":
+				// every ordered pair of a small set of shapes (each operator at the root, leaves of every kind)
+				var texts []string
+				for _, t := range qast.AllTreesU(qast.LeavesSmall(3), jsonUnaries, 1) {
+					texts = append(texts, qast.Text(t, nil))
+				}
+				for _, t := range treeSet("json0") {
+					texts = append(texts, qast.Text(t, nil))
+				}
+				for _, a := range texts {
+					for _, b := range texts {
+						w.Do(core.Case{Kind: "reuse", In: core.BStr(a), In2: core.BStr(b)})
+					}
+				}
 			case strings.HasPrefix(unit, "word|"):
 				inner := strings.TrimPrefix(unit, "word|")
 				alpha := enum.UnitAlphabet(inner)
@@ -138,9 +155,15 @@ func init() {
 			}
 		},
 		Eval:   c12Eval,
-		Shrink: shrinkTokens,
+		Shrink: func(c core.Case) []core.Case {
+			out := shrinkTokens(c)
+			if c.Kind == "reuse" {
+				out = append(out, shrinkTokensField(c, func(c core.Case) string { return string(c.In2) }, func(c *core.Case, s string) { c.In2 = core.BStr(s) })...)
+			}
+			return out
+		},
 		Rule: "accepted texts of TREE(L_json,d) (L_full plus the codec's corner values: empty strings, quoted * ? and /x/, escaped /, 5.0, 1e3, -0, int64 extremes, non-ASCII, a word spelling \"min\":\"max\":, float/open/empty range bounds; fuzzy 0/1/3, boost 1/2.5) " +
-			"and accepted members of TOK(Σ_full,N) and of WORDS(B_esc,N) x 7 value slots (bare words built from \\\\ \\* \\? * ? \\/ / escaped blank and quote), each with and without a default field; non-trivial = accepted; distinct = distinct JSON encodings",
+			"every ordered pair of 100+ shapes decoded one after the other into the same variable; and accepted members of TOK(Σ_full,N) and of WORDS(B_esc,N) x 7 value slots (bare words built from \\\\ \\* \\? * ? \\/ / escaped blank and quote), each with and without a default field; non-trivial = accepted; distinct = distinct JSON encodings",
 		Assumptions: []string{"DeepEqual is demanded only when every leaf has the kind the decoder infers from its JSON text (computed from the original tree), as the statement says"},
 		Bounds: func(tier string) map[string]any {
 			if tier == "thorough" {
@@ -155,6 +178,44 @@ func init() {
 			return 300
 		},
 	})
+}
+
+// c12Reuse: decoding into a variable that already holds another decoded expression gives what
+// decoding into a fresh variable gives (json.Unmarshal is routinely pointed at a reused target).
+func c12Reuse(c core.Case) (res core.Result) {
+	p1, p2 := doParse(string(c.In), ""), doParse(string(c.In2), "")
+	if p1.pi != nil || p2.pi != nil || p1.err != nil || p2.err != nil || p1.e == nil || p2.e == nil {
+		return
+	}
+	var b1, b2 []byte
+	var e1, e2 error
+	if pi := core.Safe(func() { b1, e1 = json.Marshal(p1.e); b2, e2 = json.Marshal(p2.e) }); pi != nil || e1 != nil || e2 != nil {
+		return
+	}
+	var fresh, reused expr.Expression
+	var ef, er1, er2 error
+	if pi := core.Safe(func() {
+		ef = json.Unmarshal(b2, &fresh)
+		er1 = json.Unmarshal(b1, &reused)
+		er2 = json.Unmarshal(b2, &reused)
+	}); pi != nil {
+		res.Obs = append(res.Obs, core.Obs{Clause: "reuse", Class: "panic", Observed: pi.String(), Expected: "decoding returns"})
+		return
+	}
+	if ef != nil || er1 != nil {
+		return // the plain round trip clauses own this
+	}
+	res.Nontrivial = true
+	res.Hash = core.Hash64("reuse", string(b1), string(b2))
+	if er2 != nil {
+		res.Obs = append(res.Obs, core.Obs{Clause: "reuse", Class: "error", Observed: er2.Error(), Expected: "decodes as into a fresh variable"})
+		return
+	}
+	if !deepEqual(&fresh, &reused) {
+		res.Obs = append(res.Obs, core.Obs{Clause: "reuse", Class: "differs",
+			Observed: fmt.Sprintf("decoding %s into a variable that held %s gives %s", b2, b1, gostr(&reused)), Expected: gostr(&fresh)})
+	}
+	return
 }
 
 // leafKindsInferable: every leaf of the original tree has the kind / Go type the decoder will
@@ -223,6 +284,9 @@ func c12Eval(c core.Case) (res core.Result) {
 	in := string(c.In)
 	if !utf8.ValidString(in) {
 		return
+	}
+	if c.Kind == "reuse" {
+		return c12Reuse(c)
 	}
 	p := doParse(in, c.DF)
 	if p.pi != nil {
